@@ -536,3 +536,12 @@ _run_c11_prev6 = run
 def run(res, facts, tier):
     _run_c11_prev6(res, facts, tier)
     r7_twins(res, facts)
+
+
+_run_c11_prev7 = run
+
+
+def run(res, facts, tier):
+    _run_c11_prev7(res, facts, tier)
+    from . import c02_expr
+    c02_expr.run_c11_rule(res, facts, tier)
